@@ -6,7 +6,7 @@ from fractions import Fraction
 
 VERIF = os.path.dirname(os.path.dirname(os.path.abspath(__file__)))
 REPO = os.environ.get('VERIF_REPO', '/repo')
-DRIVER = os.path.join(VERIF, 'build', 'driver')
+DRIVER = os.environ.get('VERIF_DRIVER') or os.path.join(VERIF, 'build', 'driver')      # (the override is for trying a model change out of tree; the registered commands never set it)
 
 RMODES = ['trunc', 'fix', 'floor', 'ceil', 'around']
 OMODES = ['saturate', 'wrap']
